@@ -372,6 +372,54 @@ def part_edited_source(H, tmp):
         sys.modules.pop('c16_edit', None)
 
 
+def part_loader_source(H):
+    """frames whose code is not a file on disk: the source is reachable only through the PEP 302 loader of the namespace the
+    code runs in (__loader__.get_source), as for zip imports, plugin systems and templating engines.  The traceback module
+    consults that loader; boltons, asked FIRST on an empty line cache, must show the same source text."""
+    import importlib.machinery
+    import linecache
+    src = 'def inner(x):\n    return 1 // x  # virtual source\n\ndef outer(x):\n    return inner(x) + 1\n'
+
+    class VirtualLoader:
+        def get_source(self, name):
+            return src
+    for kind in ('__loader__ only', '__loader__ and __spec__', 'no loader at all'):
+        name = 'c16_virtual_%d' % len(kind)
+        fname = '/nonexistent/c16 virtual/%s.py' % name
+        ns = {'__name__': name}
+        if kind != 'no loader at all':
+            ns['__loader__'] = VirtualLoader()
+        if kind == '__loader__ and __spec__':
+            ns['__spec__'] = importlib.machinery.ModuleSpec(name, ns['__loader__'])
+        exec(compile(src, fname, 'exec'), ns)
+        linecache.clearcache()
+        try:
+            ns['outer'](0)
+        except ZeroDivisionError:
+            et, ev, tb = sys.exc_info()
+        witness = 'code exec\'d under a file name that does not exist, namespace with %s' % kind
+        wc = 'source available only through the namespace loader (%s)' % kind
+        H.ev(key=('loader', kind), nontrivial=True, part='live_loader', sample=witness)
+        ok, ei = H.guard(lambda: tbutils.ExceptionInfo.from_exc_info(et, ev, tb), 'frames_equal_traceback_module',
+                         'ExceptionInfo.from_exc_info', wc + '; raises', witness)
+        if not ok:
+            continue
+        ok1, fr = H.guard(lambda: [(c.module_path, c.lineno, c.func_name, str(c.line).strip()) for c in ei.tb_info.frames],
+                          'frames_equal_traceback_module', 'ExceptionInfo.from_exc_info', wc + '; reading frames raises', witness)
+        ok2, txt = H.guard(lambda: ei.get_formatted(), 'formatted_equals_interpreter', 'ExceptionInfo.get_formatted',
+                           wc + '; raises', witness)
+        std = [(f.filename, f.lineno, f.name, (f.line or '').strip()) for f in traceback.extract_tb(tb)]
+        if ok1:
+            H.check(fr == std, 'frames_equal_traceback_module', 'ExceptionInfo.from_exc_info', wc, witness,
+                    'frames %r, traceback.extract_tb %r' % (fr, std))
+        if ok2:
+            want = strip_markers(''.join(traceback.format_exception(et, ev, tb)))
+            H.check(txt.rstrip('\n') == want.rstrip('\n'), 'formatted_equals_interpreter', 'ExceptionInfo.get_formatted',
+                    wc, witness, 'got %r, interpreter %r' % (txt, want))
+        H.check(kind == 'no loader at all' or any('virtual source' in f[3] for f in std), 'frames_equal_traceback_module',
+                'ExceptionInfo.from_exc_info', 'harness self-check: the reference found the loader source', witness, repr(std))
+
+
 def run():
     H = Harness('C16',
                 rule='one evaluation = one rendered traceback text through from_string/to_string (non-trivial: at least one frame '
@@ -379,7 +427,8 @@ def run():
                 bounds=dict(quick='texts: 0..2 frames over 4 paths x 3 function names x {no source, source, source+marker line}, 3 frames over '
                                   '4 (path, function) x 3 kinds; 2 type names x 5 messages; also with a trailing newline for <= 1 frame; '
                                   '1..2 frames over extended source lines/paths.  live: all chains of depth 1..4 over {function, lambda, '
-                                  'method, generator, exec} x 3 raisers (2 at depth 4) x 6 exception kinds; recursion 2,3,5,8 deep',
+                                  'method, generator, exec} x 3 raisers (2 at depth 4) x 6 exception kinds; recursion 2,3,5,8 deep; a module edited and reloaded 3 times; code whose source '
+                                  'is reachable only through the namespace loader (3 namespace kinds)',
                             thorough='texts: 0..3 frames over the full 36-variant frame alphabet x 2 types x 8 messages, each also with trailing '
                                      'newline; live: depth 1..5, 3 raisers'))
     tmp = tempfile.mkdtemp(prefix='c16 \xfc-')
@@ -387,6 +436,7 @@ def run():
         if H.args.part in (None, 'live'):
             part_live(H, tmp)
             part_edited_source(H, tmp)
+            part_loader_source(H)
         if H.args.part in (None, 'texts'):
             part_texts(H)
     finally:
